@@ -24,4 +24,6 @@ VARIANTS = [
     V('benign-mirror-rename', G, [("k = (-a * x1 - b * y1 - c * z1 + d) / float((a * a + b * b + c * c))", "k = (d - a * x1 - b * y1 - c * z1) / float((a * a + b * b + c * c))")], 'silent'),
     V('benign-plane-edges', G, ("v1 = p3 - p1\n    v2 = p2 - p1", "v1 = p3 - p2\n    v2 = p1 - p2"), 'silent'),
     V('benign-midpoint-half', G, ("mr.MatrixLog3(Re)/2", "mr.MatrixLog3(Re)/2.0"), 'silent'),
+    V('sphere-ring-radius-unclamped', G, [("arccos_e = np.arccos(np.clip(e, -1.0, 1.0))\n        sin_arccos_e = np.sin(arccos_e)", "ring_radius = np.sqrt(1.0 - e * e)"), ("x = np.cos(a) * sin_arccos_e\n            y = np.sin(a) * sin_arccos_e\n            z = np.cos(arccos_e)", "x = np.cos(a) * ring_radius\n            y = np.sin(a) * ring_radius\n            z = e")], 'fire', 'R18.8'),
+    V('benign-sphere-ring-radius-clamped', G, [("arccos_e = np.arccos(np.clip(e, -1.0, 1.0))\n        sin_arccos_e = np.sin(arccos_e)", "ring_radius = np.sqrt(max(0.0, 1.0 - e * e))"), ("x = np.cos(a) * sin_arccos_e\n            y = np.sin(a) * sin_arccos_e\n            z = np.cos(arccos_e)", "x = np.cos(a) * ring_radius\n            y = np.sin(a) * ring_radius\n            z = np.clip(e, -1.0, 1.0)")], 'silent'),
 ]
